@@ -369,9 +369,18 @@ def run(ctx):
     # validate in chunks (in parallel TLC processes is not needed: ~10k events/s)
     for k in range(0, len(traces), 400):
         _validate(ctx, traces[k:k + 400], 'random')
+    # correlations whose reference temperatures differ (MergeT.tla)
+    from .. import mergetlib
+
+    def report(key, what):
+        ctx.violation(key, what, {'kind': 'tref', 'key': key})
+    mergetlib.check(ctx, report)
     ctx.exhaustive = True
     ctx.assumptions += [
-        'all files share one reference temperature (statement); values are '
+        'differing reference temperatures: Cp tables are samples of one polynomial per pair (exact closed forms); '
+        'a translated value is compared at 1e-9 (H) / 5e-7 (S); pairs whose values would agree only up to rounding '
+        'are not generated (reference values are chosen so that a translated value never equals the target\'s)',
+        'in Merge.tla and its traces all files share one reference temperature; values are '
         'tokens mapped to dyadic floats, reference values compared at 1e-12',
         'identical spellings repeated in one YAML mapping are resolved by the '
         'YAML reader before pgradd sees them: only different spellings are generated']
